@@ -87,3 +87,15 @@ Theorem C03_estimator_layout_refuted :
   /\ eval_estimator ccompose (wrap_estimator crelabel false w_stack (pointwise cestimator1)) w_obs None [w_circ] [w_params] = Ok [(-1)%Q].
 Proof. exact estimator_layout_refuted. Qed.
 Print Assumptions C03_estimator_layout_refuted.
+
+(* A non-trivial run of the instance (hypotheses satisfiable, values not all equal): operator+sampler, alpha = 1/2,
+   initial state x(1), circuits [h(0); cx(0,1)] and [rx(3 pi) on qubit 1], observable Z0 Z1 + 1/2 Z0, through
+   Transpiling(layout (0 2), routing swap (1 2)) around Batching(1 foreign pub before, 2 after) around Mutex. *)
+Example C03_example_batch_sampler :
+  stack_ok csem cpermute ex_stack
+  /\ eval_operator_sampler ccompose cwid cagg_op (wrap_sampler cwmap ex_stack (pointwise csampler1)) 64 ex_obs (1 # 2)
+                           (Some ex_init) [ex_bell; ex_flip] [[]; [3%Z]] = Ok [(-3 # 2)%Q; (3 # 2)%Q]
+  /\ map (objective_op csem ccompose cwid cread ccounts_of cagg_op 64 ex_obs (1 # 2) (Some ex_init))
+         (combine [ex_bell; ex_flip] [[]; [3%Z]]) = [(-3 # 2)%Q; (3 # 2)%Q].
+Proof. exact example_batch_sampler. Qed.
+Print Assumptions C03_example_batch_sampler.
